@@ -293,6 +293,17 @@ def long_list_target(n, where):
 
 def part_targets(ctx, quick, recs, st):
     scs = []
+    # many elisions against a long list of equal elements that cannot match in the end: the number of ways to
+    # place the explicit elements grows with (length of the list) ^ (number of elisions)
+    for kind, (po, pc), (so, sc_) in (("args", ("g(", ")"), ("g(", ")")), ("elts", ("[]int{", "}"), ("_ = []int{", "}"))):
+        for n in (30, 60, 120):
+            for mv in (False, True):
+                e = "x" if mv else "1"
+                ptxt = "@@\n%s@@\n-%s..., %s, 2%s\n+h()\n" % ("var x expression\n" if mv else "", po, ", ".join([e, "..."] * 6), pc)
+                src = "package a\n\nfunc f() {\n\t%s%s%s\n}\n" % (so, ", ".join(["1"] * n), sc_)
+                scs.append(dict(id="cli-manydots-%s-%d-%s" % (kind, n, "meta" if mv else "lit"), files=[dict(path="s.go", content=src), dict(path="p.patch", content=ptxt)],
+                                dirs=[], symlinks=[], args=["--print-only", "-p", "p.patch", "s.go"], stdin="", cwd="", strace=False, timeout_ms=30000,
+                                as_limit=3 << 30))
     # list length: memory and time may grow with the size of the file, not with the square of a list's length
     for where in ("same", "other", "args"):
         for n in (2000, 20000):
